@@ -145,10 +145,26 @@ def _nbytes(b):
         return len(b)
 
 
-class SimFileIO(io.FileIO):
-    """FileIO whose reads and writes are events of the simulated world."""
+_RealFileIO = io.FileIO
 
-    def __init__(self, world, path, mode="r", closefd=True, opener=None):
+
+class SimFileIO(_RealFileIO):
+    """FileIO whose reads and writes are events of the simulated world.
+    While a world is installed `io.FileIO` is this class, so code that builds
+    its own FileIO -> BufferedWriter -> TextIOWrapper stack is interposed as
+    well; outside the sandbox it hands out plain FileIO objects."""
+
+    def __new__(cls, path, mode="r", closefd=True, opener=None, world=None):
+        w = world if world is not None else _ACTIVE
+        owned = False
+        if w is not None and not w.suspended:
+            owned = w.owns_fd(path) if isinstance(path, int) else w.owns(path)
+        if not owned:
+            return _RealFileIO(path, mode, closefd, opener)
+        return _RealFileIO.__new__(cls)
+
+    def __init__(self, path, mode="r", closefd=True, opener=None, world=None):
+        world = world if world is not None else _ACTIVE
         self._w = world
         self._proc = world.current_proc()
         self._sticky_error = None
@@ -552,7 +568,7 @@ class World:
         )
         if not isinstance(file, int):
             file = os.fspath(file)
-        raw = SimFileIO(self, file, rawmode, closefd, opener)
+        raw = SimFileIO(file, rawmode, closefd, opener, world=self)
         result = raw
         try:
             return self._wrap(raw, result, mode, buffering, encoding, errors, newline,
@@ -731,6 +747,7 @@ class World:
         _ACTIVE = self
         io.open = self.sim_open
         builtins.open = self.sim_open
+        io.FileIO = SimFileIO
         os.stat = self.sim_stat
         os.replace = self.sim_replace
         os.rename = self.sim_rename
@@ -752,6 +769,7 @@ class World:
         global _ACTIVE
         io.open = _REAL["io_open"]
         builtins.open = _REAL["io_open"]
+        io.FileIO = _RealFileIO
         os.stat = _REAL["stat"]
         os.replace = _REAL["replace"]
         os.rename = _REAL["rename"]
@@ -820,7 +838,7 @@ class World:
                 continue
             if proc.zombie:
                 try:
-                    io.FileIO.close(f)
+                    _RealFileIO.close(f)
                 except OSError:
                     pass
             else:
@@ -831,7 +849,7 @@ class World:
                     proc.zombie = True
                     proc.crashed = True
                     try:
-                        io.FileIO.close(f)
+                        _RealFileIO.close(f)
                     except OSError:
                         pass
                 except OSError:
@@ -846,7 +864,7 @@ class World:
                 continue
             f._proc.zombie = True if not flush else f._proc.zombie
             try:
-                io.FileIO.close(f)
+                _RealFileIO.close(f)
             except OSError:
                 pass
         self.open_files = []
